@@ -178,8 +178,28 @@ pub fn run_sched<S>(s: &Sched, max_steps: usize, f: impl FnOnce() -> (Option<(S,
     }
 }
 
-#[derive(Clone, Debug, PartialEq, Eq, PartialOrd, Ord)]
-pub struct N(pub u32, pub u32); // (depth, id): ordered by depth first, as the engine expects
+#[derive(Clone, Debug)]
+pub struct N(pub u32, pub u32); // (depth, id)
+
+// ordered AND compared by depth only, exactly like caobab's `BABNode` (whose `Ord`/`Eq` look at the
+// number of constraints only): two different subproblems of the same depth are "equal" for the
+// queue, so a queue that drops or merges equal elements loses subproblems
+impl PartialEq for N {
+    fn eq(&self, other: &Self) -> bool {
+        self.0 == other.0
+    }
+}
+impl Eq for N {}
+impl PartialOrd for N {
+    fn partial_cmp(&self, other: &Self) -> Option<std::cmp::Ordering> {
+        Some(self.cmp(other))
+    }
+}
+impl Ord for N {
+    fn cmp(&self, other: &Self) -> std::cmp::Ordering {
+        self.0.cmp(&other.0)
+    }
+}
 
 pub fn run_tree(tree: &Arc<Tree>, threads: u32, s: &Sched, max_steps: usize) -> RunOut<u32> {
     let t2 = tree.clone();
